@@ -131,6 +131,24 @@ claim("C07", "exploration",
       "scroll_down assumed to scroll exactly one line.",
       "contract-based deductive verification of the integer bookkeeping (abstracted) + bounded history checking", "DESIGN 9/C07")
 
+claim("C12", "exploration",
+      "Deductive: for Nonblocking, Termmode, Cbreak, ReplacedSigIntHandler, Input (all flag combinations, fresh and re-used object, main "
+      "and non-main thread), BaseWindow, FullscreenWindow and CursorAwareWindow the REAL __enter__ and then the REAL __exit__ body are "
+      "executed from an arbitrary symbolic OS state (tty attributes, status flags, SIGINT handler, wake-up fd, open-fd count, cursor, "
+      "alternate screen) and every component is proved restored; _nonblocking_read and send are proved to leave flags/handler "
+      "unchanged on every exit (return, BlockingIOError, other OSError, exceptions escaping _send).  Bounded: 2 945 / 25 000 scenarios "
+      "on a real pty with snapshots (exceptions after every body prefix, nesting, threads, real SIGINT).",
+      "Level is exploration: the OS/blessed contracts are assumed, signals between two bytecodes of __enter__/__exit__ are not covered, "
+      "and there is a listed known finding (pipe leak of threadsafe_event_trigger).",
+      "contract-based deductive verification over a ghost OS state (protocol runs of the real bodies) + pty-based bounded checking", "DESIGN 9/C12")
+claim("C08", "exploration",
+      "Bounded only: every history of <=3 (thorough 4) operations over a 19-operation alphabet x 4 paste thresholds on a real pipe/pty "
+      "with a substituted clock and callbacks injected inside select (before / during the wait), bursts straddling the 1024-byte read, "
+      "seeded random histories, and a few real two-thread runs; oracle = reference queue model written from the statement.",
+      "No deductive claim: the property quantifies over thread schedules and signal timing, which sequential contracts cannot express "
+      "(DESIGN 10); only injection at the wait is covered.  Known findings: read ending inside a character; ESC + non-ASCII.",
+      "bounded history checking against a reference queue model (no deductive claim: schedules/IO timing)", "DESIGN 9/C08 and 10")
+
 ALL = [f"C{i:02d}" for i in range(1, 21)]
 NA_REASON = "check not built yet in this session (work in progress; see DESIGN.md section 9 for the plan)"
 m = dict(version=1, setup_cmd="bin/setup",
